@@ -360,9 +360,11 @@ def validate(ctx, trace, prefix, chunk=1200, workers=None):
         # V_x is always TRUE; a FALSE property predicate / drift monitor is reported by TLC through PrintT
         defs = ['V_%s == %s \\/ PrintT("VIOL %s " \\o ToString(l0) \\o " " \\o ToString(l) \\o " -")' % (i, i, i) for i in invs]
         defs += ['V_D_NoDrift == D_NoDrift \\/ PrintT("DRIFT D_NoDrift " \\o ToString(l0) \\o " " \\o ToString(l) \\o " " \\o ToString(drift))',
-                 'V_D_Known == D_Known \\/ PrintT("DRIFT D_Known " \\o ToString(l0) \\o " " \\o ToString(l) \\o " -")']
+                 'V_D_Known == D_Known \\/ PrintT("DRIFT D_Known " \\o ToString(l0) \\o " " \\o ToString(l) \\o " -")',
+                 # a read the model does not expect at that position: accepted (stuttering), counted
+                 'V_X_Read == xr = 0 \\/ PrintT("XREAD X_Read " \\o ToString(l0) \\o " " \\o ToString(l) \\o " -")']
         mod, cfg = vlib.write_model(d, TRACE, "BT_tv", TRACE_CONSTS, spec="TraceSpec",
-                                    invariants=["V_" + i for i in invs] + ["V_D_NoDrift", "V_D_Known"])
+                                    invariants=["V_" + i for i in invs] + ["V_D_NoDrift", "V_D_Known", "V_X_Read"])
         with open(os.path.join(d, mod + ".tla")) as f:
             txt = f.read()
         with open(os.path.join(d, mod + ".tla"), "w") as f:
@@ -375,8 +377,11 @@ def validate(ctx, trace, prefix, chunk=1200, workers=None):
         ctx.add_tlc(r)
         by_start = {s - lo + 1: (s, e) for (s, e) in part}
         reported = set()
-        for m in re.finditer(r'^"(VIOL|DRIFT) (\w+) (\d+) (\d+) (.*)"$', r.out, re.M):
+        for m in re.finditer(r'^"(VIOL|DRIFT|XREAD) (\w+) (\d+) (\d+) (.*)"$', r.out, re.M):
             what, name, l0, l = m.group(1), m.group(2), int(m.group(3)), int(m.group(4))
+            if what == "XREAD":
+                ctx.cov["extra_reads"] = ctx.cov.get("extra_reads", 0) + 1
+                continue
             s, e = by_start[l0]
             scen = events[s - 1:e]
             if what == "DRIFT":
@@ -394,6 +399,7 @@ def validate(ctx, trace, prefix, chunk=1200, workers=None):
                               name, at, scen[0].get("id"), json.dumps(scen[min(at, len(scen) - 1)])[:1500]),
                           {"module": TRACE, "invariant": name, "at_event": at, "schedule": json.loads(scen[0]["sched"]),
                            "trace": [{k: v for k, v in ev.items() if k != "sched"} for ev in scen[:at + 1]]})
+    ctx.cov.setdefault("extra_reads", 0)
     account_trace(ctx, spans, events)
     ctx.cov["traces_validated_against_impl"] += len(spans)
     ctx.cov["trace_events_validated"] += len(events) - len(spans)
@@ -401,6 +407,41 @@ def validate(ctx, trace, prefix, chunk=1200, workers=None):
     if drift_first is not None:
         raise vlib.Infra("specification drift: " + drift_first[1])
     return len(spans), len(events)
+
+
+def bound_probes(trace):
+    """Second reconcile of an already-bound pod with a fault on ANY call it makes, chosen by call index in the REAL
+    run: for every single-fault schedule whose first attempt (+ Sync) left pod 1 bound while its BindRequest is not
+    Succeeded, the recovery reconcile is repeated once per k = 1..n with its k-th call failing (n = number of calls
+    the fault-free recovery reconcile made in the recorded run - reads the model does not know are included)."""
+    events = vlib.read_ndjson(trace)
+    out = []
+    for (s, e) in vlib.scenario_index(events):
+        scen = events[s - 1:e]
+        sched = json.loads(scen[0]["sched"])
+        if sched.get("class") != "c11" or len(sched["steps"]) < 6:
+            continue
+        if any(st.get("faults") for st in sched["steps"][3:]):
+            continue
+        starts = [i for i, ev in enumerate(scen) if ev["ev"] == "Start" and ev["t"] == "rec" and ev["p"] == 1]
+        if len(starts) < 2:
+            continue
+        st = scen[starts[1]]["st"]
+        if st["pods"][0]["node"] == "" or st["br"][0]["ex"] != 1 or st["br"][0]["ph"] == "Succeeded":
+            continue
+        n = 0
+        for ev in scen[starts[1] + 1:]:
+            if ev["ev"] == "End" and ev["a"] == 1:
+                break
+            if ev["ev"] == "Call" and ev["a"] == 1:
+                n += 1
+        rec = {"n": "run", "acts": [{"i": 1, "a": 1, "t": "rec", "p": 1, "e": ""}]}
+        tail = [{"n": "run", "acts": [{"i": 1, "a": 3, "t": "sync", "p": 0, "e": ""}]}, {"n": "check"}]
+        for k in range(1, n + 1):
+            steps = sched["steps"][:3] + [dict(rec, faults=[{"a": 1, "k": k, "f": "fail"}])] + tail + ([rec] + tail) * 2 + [{"n": "final"}]
+            out.append({"id": "%s-bound-k%d" % (sched["id"], k), "class": "c11probe", "cfg": sched["cfg"], "steps": steps,
+                        "sig": sched["sig"] + "+Fail@recovery#k%d" % k, "nfaults": 2})
+    return out
 
 
 def scenario_sig(scen):
@@ -416,7 +457,7 @@ def scenario_sig(scen):
         if ev["ev"] == "Call" and ev["res"] != "ok":
             fired.append([rec.get(ev["a"], 0), ev["k"], ev["verb"], ev["kind"], ev["res"]])
             fs.append("%s@%s/%s#p%dr%dk%d" % ({"fail": "Fail", "crash": "Crash"}[ev["res"]], ev["verb"], ev["kind"], ev["a"], rec.get(ev["a"], 0), ev["k"]))
-    if sc.get("class") != "random":
+    if sc.get("class") not in ("random", "c11probe"):
         expect = json.loads(sc["sched"]).get("expect")
         if expect is None or expect == fired:
             return sc.get("sig")
